@@ -11,6 +11,9 @@ sd = os.path.join(VERIF, "seeded", seed)
 wt = "/tmp/seedws-%s" % seed
 stable = set(json.load(open("/root/.vp/BASELINE.json"))["stable_pass"])
 meta = {"seed": seed, "breaks_property": prop, "ran": []}
+_desc = os.path.join(VERIF, "seeded", "DESCRIPTIONS.json")
+if os.path.exists(_desc):
+    meta.update(json.load(open(_desc)).get(seed, {}))
 
 
 def sh(cmd, **kw):
